@@ -350,14 +350,19 @@ cJSON *set_or_call(const struct peer *p, const cJSON *request, enum type what)
 		goto routed_message_creation_failed;
 	}
 
-	const cJSON *timeout = cJSON_GetObjectItem(params, "timeout");
-	if (unlikely(setup_routing_information(e, request, timeout, routing_request, &response) < 0)) {
-		goto delete_json;
-	}
-
+	/*
+	 * Render before the request is registered: once setup_routing_information()
+	 * succeeded, the routing table and the request's timer refer to routing_request.
+	 */
 	char *rendered_message = cJSON_PrintUnformatted(routed_message);
 	if (unlikely(rendered_message == NULL)) {
 		response = create_error_response_from_request(p, request, INTERNAL_ERROR, "reason", "could not render message");
+		goto delete_json;
+	}
+
+	const cJSON *timeout = cJSON_GetObjectItem(params, "timeout");
+	if (unlikely(setup_routing_information(e, request, timeout, routing_request, &response) < 0)) {
+		cjet_free(rendered_message);
 		goto delete_json;
 	}
 
